@@ -102,31 +102,43 @@ def attrNorm (phase : Nat) (t : Tok) : Option Tok × Nat :=
   else if phase == 2 && t.tt == .ident then (some (.mk .ident (lower t.data) []), 2)
   else (some t, phase)
 
+/-- the An+B part of `:nth-child(…)`: lexemes up to `of` or the closing parenthesis, lower-cased and without white
+space (`2N + 1` and `2n+1` are the same formula whatever the token boundaries), and the rest -/
+def anbSpan : List Tok → List Char × List Tok
+  | [] => ([], [])
+  | t :: r =>
+    if t.tt == .rightParen || (t.tt == .ident && lower t.data == "of".toList) then ([], t :: r)
+    else ((if t.tt == .whitespace then [] else lower t.data) ++ (anbSpan r).1, (anbSpan r).2)
+
 /-- normal form; `stack` = contexts of the enclosing parentheses (innermost first, `[]` = a selector list),
-`attr` = `some phase` inside `[…]` -/
-def normGo (cfg : Cfg) : List Ctx → Prev → Option Nat → List Tok → List Tok
-  | _, _, _, [] => []
-  | stack, _, some phase, t :: r =>
-    if t.tt == .rightBracket then t :: normGo cfg stack .none none r
+`attr` = `some phase` inside `[…]`; the `Nat` is fuel (token count) -/
+def normGo (cfg : Cfg) : Nat → List Ctx → Prev → Option Nat → List Tok → List Tok
+  | 0, _, _, _, _ => []
+  | _ + 1, _, _, _, [] => []
+  | fuel + 1, stack, _, some phase, t :: r =>
+    if t.tt == .rightBracket then t :: normGo cfg fuel stack .none none r
     else
       match attrNorm phase t with
-      | (some t', ph) => t' :: normGo cfg stack .none (some ph) r
-      | (none, ph) => normGo cfg stack .none (some ph) r
-  | stack, prev, none, t :: r =>
+      | (some t', ph) => t' :: normGo cfg fuel stack .none (some ph) r
+      | (none, ph) => normGo cfg fuel stack .none (some ph) r
+  | fuel + 1, stack, prev, none, t :: r =>
     let ctx := stack.headD .sel
     match t.tt with
-    | .whitespace => wsTok :: normGo cfg stack .none none r
+    | .whitespace => wsTok :: normGo cfg fuel stack .none none r
     | .function =>
       let name := lower t.data.dropLast
-      .mk .function (lower t.data) [] ::
-        normGo cfg ((if prev == .colon then ctxOfFn name else ctx) :: stack) .none none r
-    | .leftParen => t :: normGo cfg (ctx :: stack) .none none r
-    | .rightParen => t :: normGo cfg (stack.drop 1) .none none r
-    | .leftBracket => if ctx == .sel then t :: normGo cfg stack .none (some 0) r else t :: normGo cfg stack .none none r
-    | .colon => t :: normGo cfg stack (if ctx == .sel then .colon else .none) none r
+      let nctx := if prev == .colon then ctxOfFn name else ctx
+      if nctx == .nth then
+        .mk .function (lower t.data) [] :: .mk .ident (anbSpan r).1 [] :: normGo cfg fuel (nctx :: stack) .none none (anbSpan r).2
+      else .mk .function (lower t.data) [] :: normGo cfg fuel (nctx :: stack) .none none r
+    | .leftParen => t :: normGo cfg fuel (ctx :: stack) .none none r
+    | .rightParen => t :: normGo cfg fuel (stack.drop 1) .none none r
+    | .leftBracket =>
+      if ctx == .sel then t :: normGo cfg fuel stack .none (some 0) r else t :: normGo cfg fuel stack .none none r
+    | .colon => t :: normGo cfg fuel stack (if ctx == .sel then .colon else .none) none r
     | .delim =>
-      if t.data == ['.'] && ctx == .sel then t :: normGo cfg stack .dot none r
-      else t :: normGo cfg stack .none none r
+      if t.data == ['.'] && ctx == .sel then t :: normGo cfg fuel stack .dot none r
+      else t :: normGo cfg fuel stack .none none r
     | .ident =>
       match ctx with
       | .sel =>
@@ -135,15 +147,15 @@ def normGo (cfg : Cfg) : List Ctx → Prev → Option Nat → List Tok → List 
           else if prev == .colon then lower t.data
           else if (match r with | n :: _ => isBar n | [] => false) then t.data     -- namespace prefix
           else if cfg.htmlTypes then lower t.data else t.data
-        .mk .ident d [] :: normGo cfg stack .none none r
+        .mk .ident d [] :: normGo cfg fuel stack .none none r
       | .nth =>
         let d := lower t.data
-        .mk .ident d [] :: normGo cfg (if d == "of".toList then .sel :: stack.drop 1 else stack) .none none r
-      | .fold => .mk .ident (lower t.data) [] :: normGo cfg stack .none none r
-      | .keep => t :: normGo cfg stack .none none r
-    | _ => t :: normGo cfg stack .none none r
+        .mk .ident d [] :: normGo cfg fuel (if d == "of".toList then .sel :: stack.drop 1 else stack) .none none r
+      | .fold => .mk .ident (lower t.data) [] :: normGo cfg fuel stack .none none r
+      | .keep => t :: normGo cfg fuel stack .none none r
+    | _ => t :: normGo cfg fuel stack .none none r
 
-def selNorm (cfg : Cfg) (ts : List Tok) : List Tok := normGo cfg [] .none none ts
+def selNorm (cfg : Cfg) (ts : List Tok) : List Tok := normGo cfg (ts.length + 1) [] .none none ts
 
 def selEquiv (cfg : Cfg) (a b : List Tok) : Bool := selNorm cfg a == selNorm cfg b
 
